@@ -1,0 +1,18 @@
+//go:build verif
+
+package searcher
+
+// VerifTermRange is one [start, end] term interval of a numeric range decomposition.
+type VerifTermRange struct {
+	Start, End []byte
+}
+
+// VerifSplitInt64Range exposes the numeric range decomposition.
+func VerifSplitInt64Range(minBound, maxBound int64, precisionStep uint) []VerifTermRange {
+	trs := splitInt64Range(minBound, maxBound, precisionStep)
+	rv := make([]VerifTermRange, 0, len(trs))
+	for _, tr := range trs {
+		rv = append(rv, VerifTermRange{Start: tr.startTerm, End: tr.endTerm})
+	}
+	return rv
+}
